@@ -94,6 +94,8 @@ def run(rep: Report) -> None:
              "the formatter's language is within the parser's (R13.3 at the serialisation sites)", floor=4)
     rep.rule("R15.5", "Unit.__from_json__: base units resolve by name (every base unit is named); derived units rebuild "
              "through the interning constructor", floor=3)
+    rep.rule("R03.7", "Quantity.__init__ (the reader of the stored unit text) keeps magnitude and unit as given (shared with C03)", floor=2)
+    rep.rule("R15.9", "no encoder/decoder is memoised over values whose equality ignores the magnitude type (5 m, 5.0 m, Decimal('5') m)", floor=1)
     rep.rule("R15.8", "the unit text a quantity is stored under resolves back to that unit: every prefix x unit spelling and every name resolves "
              "to itself or to an equal-valued unit (the symbol-table rule of C13, at the serialisation sites)", floor=1000)
     rep.rule("R15.7", "Dimension/Prefix decoders rebuild from the encoded structural key (exponents; base and exponent) on every path", floor=2)
@@ -261,6 +263,10 @@ def run(rep: Report) -> None:
     symbol_table(rep, ev, symbol_regex(_norm(_sh.data, _sh.memo)), rep.tier == "thorough", rid1="R15.8", rid2="R15.8",
                  consequence="a quantity in that unit comes back from JSON / the SQL composite as a quantity of another unit")
     structural_decoding(rep, prog, "R15.7")
+    from ..quantity_rules import check_quantity_ctor
+    check_quantity_ctor(rep, prog, "R03.7")
+    from ..quantity_rules import check_numeric_memo
+    check_numeric_memo(rep, prog, resolver, "R15.9")
     # R15.5
     uf = prog.func("Unit.__from_json__")
     jparam = uf.params()[1]
